@@ -109,7 +109,7 @@ let () =
             (Extracted.EmitBash.script_of_dfa (cl (string_ cmd)) (cl (string_ sg)) (cdfa_of d) (ord_of om) (ord_subs_of os) groups)
       | _ -> raise (Shape "emitbash args"))
 
-(* readscript <shell> "script text" -> (<stmt>...)                      Spec.ScriptRead.read_stmts
+(* readscript <shell> "command" "script text" -> (<stmt>...)                      Spec.ScriptRead.read_stmts
    <stmt> = (func "n") (end) (body "t") (lits "v" ("a"..)) (str "v" k "s") (decl "v") (row "v" s ((k v)..))
             (assoc "v" ((s (l ..))..)) (scalar "v" n) (set "v" idx|- (n|"s" ..)) (call "n") (register "a" ..) *)
 module SR = Extracted.ScriptRead
@@ -133,5 +133,5 @@ let of_stmt (s : SR.stmt) : t =
 let () =
   register "readscript" (fun v ->
       match v with
-      | List [sh; s] -> List (List.map of_stmt (SR.read_stmts (shell_of sh) (cl (string_ s))))
+      | List [sh; c; s] -> List (List.map of_stmt (SR.read_stmts (shell_of sh) (cl (string_ c)) (cl (string_ s))))
       | _ -> raise (Shape "readscript args"))
